@@ -268,11 +268,11 @@ func c16Eval(c c16Case) (ok bool, sig, detail string) {
 func init() {
 	register(&Check{ID: "C16", Level: "model_checking", Quick: 150 * time.Second, Thor: 30 * time.Minute,
 		Run: func(r *engine.Run) bool {
-			maxN, maxMut := 1300, 70
+			maxN, maxMut, maxLadder := 1300, 70, 1200000
 			if r.Tier == "thorough" {
-				maxN, maxMut = 12000, 130
+				maxN, maxMut, maxLadder = 12000, 130, 12000000
 			}
-			r.Rule = fmt.Sprintf("every length 0..%d (every remainder mod 10 and mod 60, index widths 1..%d digits) with residues cycling through all bytes 33..126 (plus two more alphabets for n<=200): format, Len, decode, re-format, scan as LF (fast path) and CRLF (slow path); for every length <=%d every offset of the block x 9 replacement bytes: both line-end variants (and, with the overlay export, the two internal paths directly) must agree; distinct key = (kind,n,offset,byte); non-trivial = n>=1", maxN, len(fmt.Sprint(maxN)), maxMut)
+			r.Rule = fmt.Sprintf("every length 0..%d (every remainder mod 10 and mod 60, index widths 1..%d digits) with residues cycling through all bytes 33..126 (plus two more alphabets for n<=200): format, Len, decode, re-format, scan as LF (fast path) and CRLF (slow path); for every length <=%d every offset of the block x 9 replacement bytes: both line-end variants (and, with the overlay export, the two internal paths directly) must agree; distinct key = (kind,n,offset,byte); non-trivial = n>=1; above that every length of the size ladder (v-1,v,v+1 around powers of two, powers of ten and the multiples of 10 and 60 next to them) up to %d, i.e. index widths up to %d digits", maxN, len(fmt.Sprint(maxN)), maxMut, maxLadder, len(fmt.Sprint(maxLadder)))
 			complete := true
 			eval := func(c c16Case, size int) {
 				r.Evals.Add(1)
@@ -308,6 +308,28 @@ func init() {
 			r.States.Add(int64(maxN + 1))
 			if done {
 				r.Extra["lengths_completed"] = maxN
+			}
+			// the size ladder above the contiguous range (index-width changes, chunk sizes)
+			if complete {
+				var big []int
+				for _, n := range engine.Ladder(0, maxLadder, 10, 60) {
+					if n > maxN {
+						big = append(big, n)
+					}
+				}
+				done := r.ParallelFor(len(big), func(i int) {
+					eval(c16Case{Kind: "layout", N: big[i]}, 50000+i)
+					r.Traces.Add(2)
+					if c16HaveInternals {
+						eval(c16Case{Kind: "internal", N: big[i]}, 50000+i)
+					}
+				})
+				r.States.Add(int64(len(big)))
+				r.Extra["ladder_lengths"] = len(big)
+				if done {
+					r.Extra["ladder_max_length"] = maxLadder
+				}
+				complete = complete && done
 			}
 			repl := []byte{' ', '\n', '0', '9', 'a', '!', '~', '\t', 0x7f}
 			if complete {
